@@ -68,9 +68,9 @@ where
 }
 
 /// relational run for element types / values the exact model has no reading of (f32, decimal
-/// fractions): `range(0, b, step)` judged in the element type's own arithmetic — every element is
-/// `step * i`, lies strictly before `b` in the direction of the step, and `step * len` does not
-fn range_check<T, O>(b: T, step: T) -> String
+/// fractions): `range(a, b, step)` judged in the element type's own arithmetic — every element is
+/// `a + step * i`, lies strictly before `b` in the direction of the step, and `a + step * len` does not
+fn range_check<T, O>(a: T, b: T, step: T) -> String
 where
     T: Number + IsNone<Inner = T> + Tok + Copy,
     usize: Cast<T>,
@@ -78,11 +78,11 @@ where
 {
     guarded(|| {
         let zero = T::zero();
-        let o = <O as Vec1Create<T>>::range(Some(zero), b, Some(step));
+        let o = <O as Vec1Create<T>>::range(Some(a), b, Some(step));
         let v: Vec<T> = o.titer().collect();
         let before = |x: T| if step > zero { x < b } else { x > b };
         for (i, x) in v.iter().enumerate() {
-            let want: T = step * Cast::<T>::cast(i);
+            let want: T = a + step * Cast::<T>::cast(i);
             if *x != want {
                 return format!("ELEM:{}", i);
             }
@@ -90,7 +90,7 @@ where
                 return format!("BEYOND:{}", i);
             }
         }
-        let next: T = step * Cast::<T>::cast(v.len());
+        let next: T = a + step * Cast::<T>::cast(v.len());
         if before(next) {
             return format!("MISSING:{}", v.len());
         }
@@ -240,8 +240,8 @@ pub fn run(r: &Req) -> Option<String> {
     let t = if r.s("t").is_empty() { "f64" } else { r.s("t") };
     Some(match r.f.as_str() {
         "C19rng" => match t {
-            "f32" => by_cont!(oc, f32, O => range_check::<f32, O>(r.f64("b") as f32, r.f64("step") as f32)),
-            _ => by_cont!(oc, f64, O => range_check::<f64, O>(r.f64("b"), r.f64("step"))),
+            "f32" => by_cont!(oc, f32, O => range_check::<f32, O>(if r.has("a") { r.f64("a") as f32 } else { 0. }, r.f64("b") as f32, r.f64("step") as f32)),
+            _ => by_cont!(oc, f64, O => range_check::<f64, O>(if r.has("a") { r.f64("a") } else { 0. }, r.f64("b"), r.f64("step"))),
         },
         "range" => match t {
             "f32" => by_cont!(oc, f32, O => range_of::<f32, O>(r.f64("a") as f32, r.f64("b") as f32, r.f64("step") as f32)),
@@ -376,6 +376,12 @@ pub fn generate(tier: &str, rng: &mut Rng) -> (Vec<String>, bool) {
                         out.push(format!("C19rng t={} oc={} b={} step={}", t, oc, end, step));
                         out.push(format!("C19rng t={} oc={} b={} step={}", t, oc, format!("{}/1000", sn * (sk * 50 * m + 1)), step));
                         out.push(format!("C19rng t={} oc={} b={} step={}", t, oc, format!("{}/1000", sn * (sk * 50 * m - 1)), step));
+                        // the same spans from a decimal start
+                        for a10 in [1i64, 3, 8, -7] {
+                            if (m + sk) % 3 == 0 {
+                                out.push(format!("C19rng t={} oc={} a={}/10 b={}/100 step={}", t, oc, a10, a10 * 10 + sn * sk * 5 * m, step));
+                            }
+                        }
                     }
                 }
             }
